@@ -228,6 +228,11 @@ def run(P, R, L):
     K.pair2_group_result(P, R, L)
     K.ord2_write_ahead(P, R, L, rule="ORD-2")
     R.clause("ORD-2", "a failed WAL append prevents the memtable insert (success-edge dominance) and records the sticky error")
+    R.clause("ORD-5", "a failed manifest append leaves CURRENT pointing at the old, complete manifest (the new manifest is appended to before "
+             "CURRENT is switched; the switch itself is temp-file + rename)")
+    from .c02 import ord5_manifest_before_current, ord4_current_switch
+    ord5_manifest_before_current(P, R, L)
+    ord4_current_switch(P, R, L)
     R.not_decided += ["that a write which returned Err is all-or-nothing after reopen (runtime content)",
                       "errors swallowed inside dependencies (std, integer_encoding, snap)"]
     R.assumptions += ["`?` lowers to Try::branch + FromResidual::from_residual into the return place",
